@@ -143,6 +143,8 @@ def plan_decode(tier, shard, nshards):
     out = [(i, ident_strategy(i), n) for i in ids]
     # every counter at the largest value that fits 1023 bytes, for every identity, on every run
     out += [(i + "/max", ident_strategy(i, "max"), 2 if tier == "quick" else 20) for i in ids]
+    if "1029" in ids:
+        out.append(("1029/unicode", unicode_1029(), 30 if tier == "quick" else 600))
     return out
 
 
@@ -219,6 +221,68 @@ def plan_tail(tier, shard, nshards):
     return [("", s_tail(ids), n)] if ids else []
 
 
+# ------------------------------------------------------------------ (4) the same decode through a stream reader, with CRC twins
+def o_reader(case):
+    """two different valid frames of one type and length with identical CRC trailers, read by ONE reader: each parsed
+    message must carry the values its own bits encode"""
+    import io
+
+    from pyrtcm import RTCMReader
+
+    from pv import framing, streams
+
+    p = bytes.fromhex(case["payload"])
+    f = framing.build_frame(p)
+    t = streams.crc_twin(f, case["off"])
+    frames_ = [f]
+    if t is not None and framing.ref_identity(t[3:-3]) == case["ident"]:
+        try:
+            model.decode(t[3:-3])
+            frames_ = [f, t, f] if case["order"] else [t, f, t]
+        except model.Overrun:
+            pass
+    got = list(RTCMReader(io.BytesIO(b"".join(frames_)), quitonerror=2))
+    if len(got) != len(frames_):
+        raise Fail("reader-frame-count", f"{len(got)} results for {len(frames_)} frames")
+    for k, ((raw, parsed), fr) in enumerate(zip(got, frames_)):
+        if raw != fr:
+            raise Fail("reader-raw", f"frame {k}: raw bytes differ")
+        _, w = model.decode(fr[3:-3])
+        compare(fr[3:-3], w, parsed, "reader")
+    return Res(nontrivial=len(frames_) > 1, classes=["with-crc-twin" if len(frames_) > 1 else "single"], evals=len(frames_))
+
+
+@st.composite
+def s_reader(draw, ids):
+    ident = draw(st.sampled_from(ids))
+    c = draw(gen.messages(ident, "small"))
+    c["off"] = draw(st.integers(0, 4000))
+    c["order"] = draw(st.booleans())
+    return c
+
+
+def plan_reader(tier, shard, nshards):
+    ids = gen.decodable_idents()[shard::nshards]
+    return [("", s_reader(ids), 60 if tier == "quick" else 1500)] if ids else []
+
+
+@st.composite
+def unicode_1029(draw):
+    """a semantically consistent 1029: DF138 = characters, DF139 = UTF-8 code units, DF140 = the code units"""
+    text = draw(st.text(alphabet=st.one_of(st.characters(min_codepoint=32, max_codepoint=126), st.sampled_from("äöüßéèñøåçλπЖяあ中€😀")), min_size=1, max_size=40))
+    b = text.encode("utf-8")[:255]
+    while True:
+        try:
+            nchar = len(b.decode("utf-8"))
+            break
+        except UnicodeDecodeError:
+            b = b[:-1]
+    fixed = {"DF138": nchar & 0x7F, "DF139": len(b)}
+    for i, u in enumerate(b, 1):
+        fixed[f"DF140_{i:02d}"] = u
+    return draw(gen.messages("1029", "small", fixed=fixed))
+
+
 def _short(c):
     c = dict(c)
     if len(c.get("payload", "")) > 160:
@@ -230,5 +294,6 @@ def _short(c):
 SUBS = [
     Sub("decode_all_identities", o_decode, plan=plan_decode, rule="all identities x generated messages; expected list from the independent interpreter", need={"group-iteration": 1, "negative": 1, "msm": 1, "optional-group": 1, "nested-group": 1, "index>=10": 1}, sample=_short),
     Sub("one_field_change", o_field, plan=plan_field, rule="new raw value differs from the old one", sample=_short),
+    Sub("reader_path_with_crc_twins", o_reader, plan=plan_reader, rule="a CRC twin (same type, length and CRC trailer, different payload) could be built", need={"with-crc-twin": 1}, sample=_short),
     Sub("trailing_bytes", o_tail, plan=plan_tail, rule="padding bits or tail differ from the canonical payload", sample=_short),
 ]
